@@ -10,15 +10,32 @@ trace.ndjson: what eng_seq --mode replay --cyc 1 recorded for exactly these beha
 
 Prints one JSON summary; "mismatches" lists behaviours whose user-visible values or executor runs
 differ from what the model predicts (kind = "value": a query result differs; kind = "runs": the
-sequence of executor runs differs; kind = "model_err": the model itself reported trouble)."""
+sequence of executor runs differs; kind = "state": the persisted mechanism state after some query or
+commit differs (traces recorded with --dump 1 only); kind = "model_err": the model itself reported
+trouble)."""
 import json, sys
 
 
 def impl_runs(trace):
-    cur = {"queries": [], "runs": [], "panics": []}
+    def fresh():
+        return {"queries": [], "runs": [], "panics": [], "dumps": []}
+    cur = fresh()
+    snap = None
     for line in open(trace):
         e = json.loads(line)
         k = e.get("e")
+        if k == "act":
+            if snap:
+                cur["dumps"].append(snap)
+            snap = None
+        elif k == "dump":
+            snap = snap or {}
+            snap[e["n"]] = {"age": -1 if e["lv"] < 0 else e["cur"] - e["lv"], "fwd": e["fwd"],
+                            "dirty": sorted(e["dirty"]), "back": sorted(e["back"])}
+        if k == "reset":
+            if snap:
+                cur["dumps"].append(snap)
+            snap = None
         if k == "query":
             cur["queries"].append((e["n"], e["v"]))
         elif k == "exec":
@@ -27,13 +44,13 @@ def impl_runs(trace):
             cur["panics"].append(e)
         elif k == "reset":
             yield cur
-            cur = {"queries": [], "runs": [], "panics": []}
+            cur = fresh()
 
 
 def main():
     beh_path, trace = sys.argv[2], sys.argv[3]
     behs = [json.loads(l) for l in open(beh_path) if l.strip()]
-    n = nq = nr = 0
+    n = nq = nr = nd = 0
     mism = []
     for i, (b, r) in enumerate(zip(behs, impl_runs(trace))):
         n += 1
@@ -42,6 +59,7 @@ def main():
         nq += len(mq)
         nr += len(mr)
         kind = None
+        state_diff = None
         if b.get("err"):
             kind = "model_err"
         elif r["panics"]:
@@ -50,12 +68,30 @@ def main():
             kind = "value"
         elif mr != r["runs"]:
             kind = "runs"
+        elif r["dumps"] and "snaps" in b:
+            # mechanism state after every query / commit (Engine::verif_dump): age of last_verified,
+            # forward edge order, dirty edges, callers
+            ms = [{int(k) if not isinstance(k, int) else k: v for k, v in (enumerate(sn, 1) if isinstance(sn, list) else sn.items())}
+                  for sn in b["snaps"]]
+            nd += len(r["dumps"])
+            if len(ms) != len(r["dumps"]):
+                kind, state_diff = "state", {"snapshots": [len(ms), len(r["dumps"])]}
+            else:
+                for si, (m_, d_) in enumerate(zip(ms, r["dumps"])):
+                    for node in sorted(d_):
+                        mm = m_[node]
+                        mm = {"age": mm["age"], "fwd": list(mm["fwd"]), "dirty": sorted(mm["dirty"]), "back": sorted(mm["back"])}
+                        if mm != d_[node]:
+                            kind, state_diff = "state", {"snapshot": si, "node": node, "model": mm, "impl": d_[node]}
+                            break
+                    if kind:
+                        break
         if kind:
             mism.append({"i": i, "kind": kind, "model_queries": mq, "impl_queries": r["queries"],
                          "model_runs": mr, "impl_runs": r["runs"], "panics": r["panics"][:2],
-                         "judged": [q["judged"] for q in b["queries"]], "err": b.get("err", ""),
+                         "judged": [q["judged"] for q in b["queries"]], "err": b.get("err", ""), "state_diff": state_diff,
                          "case": {"prog": b["prog"], "actions": b["actions"]}})
-    print(json.dumps({"behaviours": n, "queries_compared": nq, "executor_runs_compared": nr,
+    print(json.dumps({"behaviours": n, "queries_compared": nq, "executor_runs_compared": nr, "state_snapshots_compared": nd,
                       "mismatches": len(mism), "first": mism[:5]}))
 
 
